@@ -18,10 +18,12 @@ class Stmt:
         # `ngate` is the gate node built as a NATIVE node (readiness decided by node.cpp's generic gate):
         # same semantics, so everything downstream sees kind "gate"; only the program text differs
         self.native = native or kind == "ngate"
-        self.lbl, self.kind, self.args = lbl, ("gate" if kind == "ngate" else kind), list(args)
+        self.sos = kind == "sscript"         # script node whose type declares schedule_on_start (same semantics otherwise)
+        self.lbl, self.kind, self.args = lbl, ("gate" if kind == "ngate" else "script" if kind == "sscript" else kind), list(args)
 
     def line(self):
-        return "node %d %s %s" % (self.lbl, "ngate" if self.native and self.kind == "gate" else self.kind,
+        return "node %d %s %s" % (self.lbl, "ngate" if self.native and self.kind == "gate" else
+                                  "sscript" if getattr(self, "sos", False) and self.kind == "script" else self.kind,
                                   " ".join(str(a) for a in self.args))
 
     def port_args(self):
@@ -209,7 +211,7 @@ def elaborate(p):
                 env[key] = (lab, "main")
             elif k == "script":
                 ins = [ref(s.args[1], True)] if len(s.args) >= 2 else []
-                nodes.append(FNode(lab, k, ins, {"id": int(s.args[0])}, region)); env[key] = (lab, "main")
+                nodes.append(FNode(lab, k, ins, {"id": int(s.args[0]), "sos": getattr(s, "sos", False)}, region)); env[key] = (lab, "main")
             elif k == "sink":
                 nodes.append(FNode(lab, k, [ref(s.args[0])], {}, region))
             elif k == "thrower":
@@ -423,6 +425,7 @@ class Den:
                 sc = self.p.scripts.get(n.params["id"], [])
                 self.run_ops(n, sc[0] if sc else [], t, False)
                 st["k"] = 1
+                st["sos"] = bool(n.params.get("sos"))      # schedule_on_start: owed an evaluation in the start cycle
                 logs.append("B %s %d %s" % (n.label, t, self.qstr(st, t)))
             elif n.kind == "thrower":
                 st["calls"]["s"] += 1
@@ -448,6 +451,8 @@ class Den:
                 if i < len(tk):
                     must.add(max(tk[i][0], self.p.start))
             elif n.kind == "script":
+                if st.get("sos") and after < self.p.start:
+                    must.add(self.p.start)
                 for e in st["pend"]:
                     must.add(e[0])
                 for s in st["slack"]:
@@ -515,7 +520,10 @@ class Den:
                 tk = self.p.ticks.get(n.params["id"], [])
                 self_wake = st["idx"] < len(tk) and max(tk[st["idx"]][0], self.p.start) == t
             elif k == "script":
-                self_wake = any(e[0] == t for e in st["pend"]) or (t in st["slack"] and (n.label, t) in self.observed)
+                self_wake = any(e[0] == t for e in st["pend"]) or (t in st["slack"] and (n.label, t) in self.observed) \
+                    or bool(st.get("sos") and t == self.p.start)
+                if t >= self.p.start:
+                    st["sos"] = False
             elif k == "probe":
                 self_wake = True
             elif k == "fbsrc":
@@ -839,7 +847,8 @@ def gen_body(rng, p, lbl0, avail, n, kinds, srcs_ok=True):
             if pool and rng.random() < 0.4:
                 out.append(Stmt(lbl, "script", [sid, rng.choice(pool)]))
             else:
-                out.append(Stmt(lbl, "script", [sid]))
+                # 40%: the node type also declares schedule_on_start (booked after the start hook)
+                out.append(Stmt(lbl, "sscript" if rng.random() < 0.4 else "script", [sid]))
             made.append(str(lbl))
         elif not pool:
             continue
@@ -938,7 +947,7 @@ def gen_nested(rng, both=True, depth=1):
             if s_.kind == "src":
                 p.ticks[int(a2[0]) + off] = list(p.ticks[int(a2[0])])
                 a2[0] = int(a2[0]) + off
-            body.append(Stmt(s_.lbl + off, s_.kind, a2, getattr(s_, "native", False)))
+            body.append(Stmt(s_.lbl + off, "sscript" if getattr(s_, "sos", False) else s_.kind, a2, getattr(s_, "native", False)))
         n2 = sh(sout)
         lbl += 1
         body.append(Stmt(lbl, "sink", [n2])); lbl += 1
